@@ -27,6 +27,7 @@ mo := {_missing: m{|name, a, b, k: 0, j: 0| [name, a, b, k, j]}}
 om := {m: m{|a, b, k: 0, j: 0| [a, b, k, j]}}
 f2 := {|a, b, k: 0, j: 0| [a, b, k, j]}
 gplus := {|acc, x| acc + x}
+gplusOf := {|v| {|x| x + v}}
 `
 
 type c08tmpl struct {
@@ -73,6 +74,10 @@ func c08templates() []c08tmpl {
 	add("func literal defaults", "{|x, a: «0:int», b: «1:int», c: «2:int», d: «3:int»| [x, a, b, c, d]}(1)", true)
 	add("func literal defaults (names descending)", "{|x, d: «0:int», c: «1:int», b: «2:int», a: «3:int»| [x, a, b, c, d]}(1)", true)
 	add("duplicate kwargs both evaluated in order", "g8(a: «0:int», b: «1:int», a: «2:int», b: «3:int»)", true)
+	add("literal call: receiver, then the literal's keyword defaults", "«0:arr»@{|x, k: «1:int»| x}", true)
+	add("literal call: receiver, chain argument, then the literal's defaults (scalar)", "«0:int».{|x, k: «1:int», j: «2:int»| x}", true)
+	add("reduce literal call: receiver, chain argument", "«0:arr»$(«1:int»){|a, x, k: 1| a}", true)
+	add("trailing literal with defaults after the arguments", "f2(«0:int», «1:int») {|z, k: «2:int»| z}", true)
 	add("duplicate object keys both evaluated in order", "{a: «0:int», b: «1:int», a: «2:int», b: «3:int»}", true)
 	add("duplicate object keys in three spellings", "{a: «0:int», 'a: «1:int», \"a\": «2:int», a: «3:int»}", true)
 	add("duplicate map keys both evaluated (key and value of one pair in either order)", "%{1: «0:int», 1: «1:int», 'k: «2:int», 'k: «3:int»}", true)
@@ -206,6 +211,14 @@ func c08reproProgram(rng *rand.Rand) (src string, wantValue string) {
 	case 8:
 		return "m := %{" + pairs(":", true) + ", [1]: 0, {a: 1}: 0}\nm.keys.p; m.values.p; m.items.p; m.S.p; m.repr.p; m@{|k, v| k.p}; m == %{**m}", "true"
 	case 9:
+		if rng.Intn(2) == 0 {
+			// members whose numbers do not fit (whatever decoding makes of them, it is the same every time)
+			var ms []string
+			for i, nm := range names {
+				ms = append(ms, fmt.Sprintf(`"%s": %d%s`, nm, i+1, []string{"e300", "e19", "e-400", ".5e30", "e40"}[i%5]))
+			}
+			return "r := nil.try.{|u| `{" + strings.Join(ms, ", ") + "}`.decJSON}\n[r.val, r.err.S].p", ""
+		}
 		return "`{" + pairs(":", true) + "}`.decJSON.p; `{" + pairs(":", true) + "}`.decJSON.keys", ""
 	case 10:
 		var asg []string
